@@ -45,6 +45,28 @@ def searchShardGo : Nat → Bool → List Call → ShardRes
 
 def searchShard (calls : List Call) : ShardRes := searchShardGo 0 false calls
 
+/-- `ShuffleReplicas = true`: `idx = util.IdxShuffle(len(hosts))`, the loop asks `hosts[idx[i]]` for i = 0, 1, ... and
+    `searchHost` returns the source of the host it asked.  `perm = idx`; the replica index in `.ok` is that of the
+    replica actually asked (an index outside the host list would be a Go index panic; `IdxShuffle` never yields one -
+    such entries are skipped here). -/
+def permuted (perm : List Nat) (calls : List Call) : List (Nat × Call) :=
+  perm.filterMap fun r => (calls[r]?).map fun c => (r, c)
+
+def searchShardPGo : Bool → List (Nat × Call) → ShardRes
+  | anyErr, [] => if anyErr then .failed else .nilResp
+  | _, (r, c) :: rest =>
+    match c with
+    | .fail => searchShardPGo true rest
+    | .failWod => .wod
+    | .failTmu => .tmu
+    | .resp .wod _ _ _ => .wod
+    | .resp .tmu _ _ _ => .tmu
+    | .resp .tmf _ _ _ => .tmf
+    | .resp .none ids t e => .ok r ids t e
+
+/-- `searchShard` with the replica order `perm` -/
+def searchShardP (perm : List Nat) (calls : List Call) : ShardRes := searchShardPGo false (permuted perm calls)
+
 def ShardRes.isOk : ShardRes → Bool
   | .ok .. => true
   | _ => false
